@@ -5,7 +5,8 @@ From Blue Require Import Gen.Const_Lsm Lsm.Model Lsm.LoadProofs Lsm.Ordered Lsm.
 Import ListNotations.
 Open Scope N_scope.
 
-(* For EVERY history of writes (put / del / batch), flushes, admissible compactions (trivial moves
+(* For EVERY history of writes (put / del / batch), ingests of external ssts whose entries are
+   newer than everything the (flushed) store holds, flushes, admissible compactions (trivial moves
    and merges, however the outputs are cut into files), garbage collections at the last level
    (whatever is dropped, as long as each key's newest input version survives or is a tombstone
    dropped with every other version of the key) and reopens (however recovery re-levels the
